@@ -35,12 +35,12 @@ func (i Itv) String() string {
 
 // AV is an abstract integer value.
 type AV struct {
-	P      []Itv  // disjoint, sorted pieces; empty = bottom (unreachable / no value)
-	Taint  bool   // a function of bytes / arguments an adversary controls
-	Exact  bool   // every value of every piece is producible if the path is feasible
-	SanLo  bool   // some mask / guard / conversion / table limited the lower side
-	SanHi  bool   // ... the upper side
-	Bits   uint64 // possible one-bits when the value is known non-negative; ^0 = unknown
+	P     []Itv  // disjoint, sorted pieces; empty = bottom (unreachable / no value)
+	Taint bool   // a function of bytes / arguments an adversary controls
+	Exact bool   // every value of every piece is producible if the path is feasible
+	SanLo bool   // some mask / guard / conversion / table limited the lower side
+	SanHi bool   // ... the upper side
+	Bits  uint64 // possible one-bits when the value is known non-negative; ^0 = unknown
 	// ZeroDef: the value 0 is present because a struct field may still hold its zero value (the
 	// assignment that gives it its real value lives in a step that need not have run).
 	ZeroDef bool
